@@ -211,6 +211,43 @@ def pick_options(L, rng, workdirs, args, index, allowed=None):
     return opts, stdin, env_extra, optclass
 
 
+def add_stale(L, rng, args, index, p=0.3, extra_dirs=()):
+    """stale content carrying an argument's name in the trash dirs that may be
+    chosen: payloads WITHOUT info (file, empty dir, tree) and infos without
+    payload.  Nothing may be written into / over them."""
+    if rng.random() >= p:
+        return
+    cands = list(extra_dirs)
+    ht = L.home_trash()
+    if ht:
+        cands.append(ht)
+    for v in L.mounts:
+        if L.alt_state.get(v) in ('absent', 'dir'):
+            cands.append(L.vol_path(v, '.Trash-%d' % L.uid))
+        if L.top_state.get(v) == 'sticky':
+            cands.append(L.vol_path(v, '.Trash/%d' % L.uid))
+    for a in args:
+        nm = os.path.basename(a['spelling'].rstrip('/')) or 'x'
+        if not gen.is_valid_utf8(nm) or nm in ('.', '..') or \
+                len(nm.encode()) > 240 or '/' in nm:
+            continue
+        have = set(nd['p'] for nd in L.nodes)
+        for td in cands:
+            if rng.random() < 0.6 and (td + '/files/' + nm) not in have \
+                    and not any(h.startswith(td + '/files/' + nm + '/')
+                                for h in have):
+                L.add(world.ensure_trash_dirs(td))
+                if rng.random() < 0.25 and \
+                        (td + '/info/' + nm + '.trashinfo') not in have:
+                    L.add({'p': td + '/info/' + nm + '.trashinfo', 't': 'f',
+                           'c': world.trashinfo_text('stale/info', '2002-02-02T02:02:02')})
+                    continue
+                kind = rng.choice(['file', 'dir_empty', 'tree'])
+                for nd in gen.entry_nodes(rng, td + '/files/' + nm, kind,
+                                          'stale%d' % index):
+                    L.add(nd)
+
+
 def gen_case(rng, index, tier):
     L = gen.make_layout(rng)
     dotcase = rng.random() < 0.22
@@ -246,34 +283,7 @@ def gen_case(rng, index, tier):
                         ht, nm, world.trashinfo_text('/old/' + spec.pct_encode(
                             nm.encode()), '2001-01-01T00:00:00'),
                         [{'p': '', 't': 'f', 'c': 'old payload %d' % index}]))
-    # stale payloads WITHOUT info (file, empty dir, tree) carrying an
-    # argument's name, in the trash dirs that may be chosen: nothing may be
-    # written into / over them
-    if rng.random() < 0.3:
-        cands = []
-        ht = L.home_trash()
-        if ht:
-            cands.append(ht)
-        for v in L.mounts:
-            if L.alt_state.get(v) in ('absent', 'dir'):
-                cands.append(L.vol_path(v, '.Trash-%d' % L.uid))
-            if L.top_state.get(v) == 'sticky':
-                cands.append(L.vol_path(v, '.Trash/%d' % L.uid))
-        for a in args:
-            nm = os.path.basename(a['spelling'].rstrip('/')) or 'x'
-            if not gen.is_valid_utf8(nm) or nm in ('.', '..') or \
-                    len(nm.encode()) > 240 or '/' in nm:
-                continue
-            have = set(nd['p'] for nd in L.nodes)
-            for td in cands:
-                if rng.random() < 0.6 and (td + '/files/' + nm) not in have \
-                        and not any(h.startswith(td + '/files/' + nm + '/')
-                                    for h in have):
-                    L.add(world.ensure_trash_dirs(td))
-                    kind = rng.choice(['file', 'dir_empty', 'tree'])
-                    for nd in gen.entry_nodes(rng, td + '/files/' + nm, kind,
-                                              'stale%d' % index):
-                        L.add(nd)
+    add_stale(L, rng, args, index)
     case = L.desc()
     case['env'] = dict(case['env'], **env_extra)
     case['args'] = args
